@@ -3,6 +3,7 @@
 UNITS = {
     "C01": [
         dict(test="TestC01_Tree", quick=dict(checks=1500, shards=4), thorough=dict(checks=40000, shards=16)),
+        dict(test="TestC01_Distractors", quick=dict(), thorough=dict()),
         dict(test="TestC01_Wide", quick=dict(checks=150, shards=2, shrinktime="10s"), thorough=dict(checks=4000, shards=8)),
     ],
 }
